@@ -58,6 +58,7 @@ type vfWConfig struct {
 		N      int `json:"n"`      // captured priorities
 	} `json:"prio"`
 	Timeouts bool `json:"timeouts"` // observe handshake / idle cuts
+	ViaEnv   bool `json:"via_env"`  // every setting through its environment variable ($FORWARD_URL, $ENABLE_KUBERNETES_PROBE, ...) instead of the command line
 }
 type vfWObs struct {
 	ID        int                 `json:"id"`
@@ -135,8 +136,18 @@ func vfWRun(t *testing.T, c vfWConfig) vfWOut {
 	// exactly what Run() does, with a fresh flag set / registry per configuration and an ephemeral port
 	flag.CommandLine = flag.NewFlagSet("fingerproxy", flag.ContinueOnError)
 	PrometheusRegistry = prometheus.NewRegistry()
+	args := append([]string{"-cert-filename=" + crt, "-certkey-filename=" + key, "-forward-url=" + bs.URL + c.FwdPath}, c.Args...)
+	if c.ViaEnv {
+		// the defaults of the flags are read from the environment when the flags are declared
+		for _, a := range args {
+			kv := strings.SplitN(strings.TrimPrefix(a, "-"), "=", 2)
+			name := strings.ToUpper(strings.ReplaceAll(kv[0], "-", "_"))
+			os.Setenv(name, kv[1])
+			defer os.Unsetenv(name)
+		}
+		args = nil
+	}
 	initFlags()
-	args := append([]string{"-cert-filename", crt, "-certkey-filename", key, "-forward-url", bs.URL + c.FwdPath}, c.Args...)
 	if err := flag.CommandLine.Parse(args); err != nil {
 		out.Err = err.Error()
 		return out
